@@ -152,4 +152,13 @@ let c04_gen cast8 toks =
            Buffer.contents b)
   | _ -> failwith "c04 args"
 
-let () = register "c04" (c04_gen false); register "c04x" (c04_gen true)
+(* resize <alloc_size> <max_size> <size> : coap_pdu_check_resize -> <0/1> <new alloc_size> *)
+let resize toks =
+  match toks with
+  | [a; m; sz] ->
+      (match ed_check_resize (zi a) (zi m) (zi sz) with
+       | None -> "STUCK"
+       | Some (r, a') -> Printf.sprintf "%d %d" (if r then 1 else 0) (int_of_z a'))
+  | _ -> failwith "resize args"
+
+let () = register "c04" (c04_gen false); register "c04x" (c04_gen true); register "resize" resize
